@@ -93,7 +93,7 @@ PROPS = {
     'C18': dict(
         technique='Kani inverse-pair harnesses on the real Felt252Serde element codecs; native bounded stand-ins for BigInt codecs; Verus contract on CanonicalReplacer',
         level_text='Deductive proof that every felt252 element codec within reach is an inverse pair (deserialize(serialize(x)) == x, exact consumption, frame on the output vector).',
-        level_note='Element codecs and CanonicalReplacer are proved. The text serialisation (generated LALRPOP parser), the compress/decompress round trip, Vec/BigInt codecs are covered only by bounded native stand-ins (n_c18_text on the repository\'s printed programs, n_c18_compress, n_felt_serde_*). Debug names through publication, and byte-identical CASM of the source / published / read-back / re-parsed program, are covered only by the bounded stand-in n_c18_debug_info (396 recorded programs). The JSON of bare programs (serde derive) is not covered.',
+        level_note='Element codecs and CanonicalReplacer are proved. The text serialisation (generated LALRPOP parser), the compress/decompress round trip, Vec/BigInt codecs are covered only by bounded native stand-ins (n_c18_text on the repository\'s printed programs, n_c18_compress, n_felt_serde_*). Debug names through publication, and byte-identical CASM of the source / published / read-back / re-parsed program, are covered only by the bounded stand-in n_c18_debug_info (396 recorded programs). The versioned JSON of programs (serde derive, with and without debug info) is covered only by the bounded stand-in n_c18_text/json_round_trip on the same programs.',
         scope='felt252 serde element codecs and canonical renaming (DESIGN.md 4/C18).',
         assumptions=[A0, A1, A3, A4],
         outside=['generic_id_serde! (string ids, keccak table)', 'compress/decompress round trip', 'Program::{serialize,deserialize} loops', 'fmt.rs / LALRPOP grammar', 'JSON (serde derive)'],
